@@ -16,10 +16,13 @@ noncomputable instance : Num ℝ where
   abs := fun x => |x|
 
 variable {𝕜 : Type} [RCLike 𝕜]
-noncomputable instance : XM.Entry ℝ 𝕜 := { conj := star, ofReal := fun x => (x : 𝕜) }
+noncomputable instance : XM.Entry ℝ 𝕜 :=
+  { conj := star, ofReal := fun x => (x : 𝕜), divReal := fun x r => x / (r : 𝕜), normSq := fun x => RCLike.normSq x }
 
 @[simp] theorem Num.ofNat_real (n : ℕ) : (Num.ofNat n : ℝ) = (n : ℝ) := rfl
 @[simp] theorem Entry.ofReal_eq (x : ℝ) : (Entry.ofReal x : 𝕜) = (x : 𝕜) := rfl
+@[simp] theorem Entry.divReal_eq (x : 𝕜) (r : ℝ) : (Entry.divReal x r : 𝕜) = x / (r : 𝕜) := rfl
+@[simp] theorem Entry.normSq_eq (x : 𝕜) : (Entry.normSq x : ℝ) = RCLike.normSq x := rfl
 @[simp] theorem Conj.conj_eq (x : 𝕜) : (Conj.conj x : 𝕜) = star x := rfl
 
 def XM.Mat.toMatrix {α} {n m} (A : Mat n m α) : Matrix (Fin n) (Fin m) α := fun i j => A.get i j
@@ -45,6 +48,10 @@ theorem sumFin_eq {α} [AddCommMonoid α] (n : Nat) (f : Fin n → α) : Mat.sum
 @[simp] theorem toMatrix_scaleCols {n m} (A : Mat n m 𝕜) (s : Fin m → 𝕜) :
     (Mat.scaleCols A s).toMatrix = A.toMatrix * diagonal s := by
   ext i j; simp [Mat.toMatrix, Mat.scaleCols, Matrix.mul_diagonal]
+
+@[simp] theorem toMatrix_divCols {n m} (A : Mat n m 𝕜) (d : Fin m → ℝ) :
+    (Mat.divCols A d).toMatrix = A.toMatrix * diagonal (fun j => ((d j : 𝕜))⁻¹) := by
+  ext i j; simp [Mat.toMatrix, Mat.divCols, Matrix.mul_diagonal, div_eq_mul_inv]
 
 @[simp] theorem toMatrix_sub {n m} (A B : Mat n m 𝕜) : (Mat.sub A B).toMatrix = A.toMatrix - B.toMatrix := by
   ext i j; simp [Mat.toMatrix, Mat.sub]
